@@ -710,7 +710,7 @@ func main() {
 	skipped := 0
 
 	smallWidths := []uint16{0, 1, 2, 3, 4, 5, 6}
-	exLen, nRandom, maxAtoms := 4, 500, 60
+	exLen, nRandom, maxAtoms := 4, 400, 60
 	exLenRich := 3
 	if cfg.Thorough() {
 		exLen, nRandom, maxAtoms = 6, 2000, 120
